@@ -541,6 +541,28 @@ func (d *c05drv) runRandom() {
 		ps, qs := d.vec(as, bs)
 		d.battery(ps, qs, 1)
 	}
+	// many pairs (far more than any hand-unrolled prefix or chunk of a parallel product), with and without points at
+	// infinity in the lists, and a product that cancels
+	for _, k := range []int{16, 33, 40} {
+		for variant := 0; variant < 3; variant++ {
+			as, bs := make([]int64, k), make([]int64, k)
+			for j := range as {
+				as[j], bs[j] = int64(1+d.rng.Intn(3)), int64(1+d.rng.Intn(3))
+				if d.rng.Intn(2) == 0 {
+					as[j] = -as[j]
+				}
+			}
+			if variant >= 1 { // infinity in P at one place, in Q at another
+				as[(k*2)/3], bs[k/5] = 0, 0
+			}
+			if variant == 2 { // the product is one: the last pair cancels the others (a point at infinity is in the list too)
+				as[k-1], bs[k-1] = -c05dot(as[:k-1], bs[:k-1]), 1
+			}
+			ps, qs := d.vec(as, bs)
+			d.battery(ps, qs, 0)
+			d.pairOp("MillerLoopFE", ps, qs, 0)
+		}
+	}
 }
 
 func (d *c05drv) emit(e Ev) {
